@@ -29,6 +29,9 @@ claim("C06", "model_checking", "One-step-ahead invariants (now' >= now, complete
 claim("C07", "model_checking", "TLC: compositions of filters on every sub-list of the ready list in every reachable state are non-empty sub-lists; real filters compared as sequences with the specification's criteria in every visited state.", N_D, T_D, "5/C07")
 claim("C09", "model_checking", "Reject actions enabled exactly when the request is invalid and stutter; TLC-injected invalid requests replayed on the real code: exception <=> invalid, all projected state unchanged.", N_D, T_D, "5/C09")
 claim("C10", "model_checking", "Per-subscriber Notify steps, ghost notification logs, singleton rule; recording observers in the real dispatcher compared note by note.", N_D, T_D, "5/C10")
+claim("C03", "model_checking", "The oracles (Opt over all dispatch histories, lower bounds) are model-checked on the spec; CP-SAT itself is a black box whose results on TLC-family and random non-flexible instances (fresh / reused solver object / 1 ns limit) are judged by the TLA+ monitor against those oracles.", N_D + " OR-Tools is not modelled.", T_D, "5/C03")
+claim("C04", "model_checking", "RuleSolver.tla: the solver loop over the instance family x rules x filters always has a best available operation, one operation per step, direct = observer-based MWKR; the real solver is stepped from TLC-chosen prefixes and every rule / score composition is asked in every visited state and compared with BestUnder / LexBest / ScoreVector.", N_D, T_D, "5/C04")
+claim("C08", "model_checking", "OptCheck.tla: TLC exhausts both dispatch trees (all histories vs histories through the dominated-operations filter) for every instance of the family and compares the minima; the real Dispatcher+filter tree is walked and its leaf makespans compared with Opt(instance) by the monitor.", N_D, T_D, "5/C08")
 
 
 def build(registered):
